@@ -29,6 +29,8 @@ type LoopSpec struct {
 	// body writes and are described by the invariants, instead of having to
 	// be the same at every iteration.
 	LockVariant bool
+	// EntryAsserts hold when the loop is reached from outside.
+	EntryAsserts []*Clause
 }
 
 type SiteSpec struct {
@@ -597,6 +599,11 @@ func (cs *ContractSet) parseClause(fc *FuncContract, c rawClause) error {
 			ls.Invariants = append(ls.Invariants, cl)
 		case "decreases":
 			ls.Decreases = cl
+		case "entry":
+			// loop N entry expr: holds when the loop is reached (an
+			// obligation there; unlike an invariant it is neither assumed at
+			// the head nor required of the iterations)
+			ls.EntryAsserts = append(ls.EntryAsserts, cl)
 		default:
 			return fmt.Errorf("unknown loop clause %q", f[1])
 		}
